@@ -88,6 +88,102 @@ theorem serial_refused_never_notified_after (st0 : St) (h0 : Init st0) (s1 s2 : 
   · rw [inv_refusedPast _ _ (serial_inv st0 h0 s1 hs1) n h]; omega
   · exact List.count_pos_iff.mpr h
 
+/-! ### the reason handed to the handler -/
+
+/-- (partial: `gateSerial`) **the reason is the gate winner's**, at every step of a gate-serial
+    schedule: when the handler of `n` has been invoked with reason `k`, the one task that passed the
+    gate of `n` is of kind `k`. -/
+theorem serial_reason_is_gate_winner (st0 : St) (h0 : Init st0) (sched : List Nat)
+    (hs : gateSerial st0 sched = true) (n : Ns) (k : Kind) :
+    (run false st0 sched).sh.calls n = [k] → (run false st0 sched).sh.marks n = [k] := by
+  intro hc
+  have hk : k ∈ (run false st0 sched).sh.calls n := by rw [hc]; simp
+  exact inv_reason_winner _ _ (serial_inv st0 h0 sched hs) n k
+    (reason_provenance false st0 h0 sched n k hk).1
+
+/-- (partial: `gateSerial`) **the handler calls follow the gate record**: `calls n` is `marks n`
+    without refusals as soon as no passing task is still between its `pre_disconnect` and its
+    `_trigger_event` (`cnt … 2 = 0`), empty before; so empty or equal to `marks n`, a sublist of
+    it; every recorded reason `k` is not a refusal, `calls n = [k]` and `marks n = [k]`. -/
+theorem serial_reason_follows_gate (st0 : St) (h0 : Init st0) (sched : List Nat)
+    (hs : gateSerial st0 sched = true) (n : Ns) :
+    ((run false st0 sched).sh.calls n =
+        if cnt (run false st0 sched) n 2 = 0
+        then ((run false st0 sched).sh.marks n).filter (· != Kind.refuse) else [])
+    ∧ ((run false st0 sched).sh.calls n = [] ∨
+        (run false st0 sched).sh.calls n = (run false st0 sched).sh.marks n)
+    ∧ ((run false st0 sched).sh.calls n).Sublist ((run false st0 sched).sh.marks n)
+    ∧ (∀ k, k ∈ (run false st0 sched).sh.calls n →
+        k ≠ Kind.refuse ∧ (run false st0 sched).sh.calls n = [k] ∧
+        (run false st0 sched).sh.marks n = [k]) :=
+  calls_marks_facts _ _ (serial_inv st0 h0 sched hs) n
+    (fun k hk => (reason_provenance false st0 h0 sched n k hk).1)
+
+/-- (partial: `gateSerial`) **the reason names a cause in progress**: every reason `k` recorded for
+    `n` is not a refusal and is the kind of a task `i` of the initial state with `n` on its list (so
+    `n` is targeted) that, along the schedule, first executed `pre_disconnect(sid, n)` and later made
+    the call. -/
+theorem serial_reason_names_cause_in_progress (st0 : St) (h0 : Init st0) (sched : List Nat)
+    (hs : gateSerial st0 sched = true) (n : Ns) (k : Kind)
+    (hk : k ∈ (run false st0 sched).sh.calls n) :
+    k ≠ Kind.refuse ∧ targeted st0 n = true ∧
+    ∃ i t0, st0.tasks[i]? = some t0 ∧ t0.kind = k ∧ n ∈ t0.todo ∧
+      passedGate false st0 sched i n k ∧ ranHandler false st0 sched i n k := by
+  refine ⟨((serial_reason_follows_gate st0 h0 sched hs n).2.2.2 k hk).1, ?_,
+    (reason_provenance false st0 h0 sched n k hk).2⟩
+  cases ht : targeted st0 n with
+  | true => rfl
+  | false =>
+    have := ((gate_serial_partial st0 h0 sched hs).2.2.2.2.2 n ht).2.1
+    have hnil := List.eq_nil_of_length_eq_zero this
+    rw [hnil] at hk; simp at hk
+
+/-- **Without the `gateSerial` hypothesis** — for EVERY threaded schedule, the racing ones
+    included — the provenance half still holds: every recorded reason `k` is on the gate record of
+    `n`, and is the kind of a task of the initial state with `n` on its list that passed the gate of
+    `n` and then made the call; with `connAtStart` it is one of the three terminating kinds.  (What the
+    race breaks is uniqueness: in `race_double_call` both `api` and `clientDisc` passed and both
+    called.) -/
+theorem reason_names_passing_task_any_schedule (st0 : St) (h0 : Init st0) (sched : List Nat)
+    (n : Ns) (k : Kind) (hk : k ∈ (run false st0 sched).sh.calls n) :
+    k ∈ (run false st0 sched).sh.marks n ∧
+    (∃ i t0, st0.tasks[i]? = some t0 ∧ t0.kind = k ∧ n ∈ t0.todo ∧
+      passedGate false st0 sched i n k ∧ ranHandler false st0 sched i n k) ∧
+    (connAtStart st0 → k = .api ∨ k = .clientDisc ∨ k = .lost) := by
+  obtain ⟨h1, h2⟩ := reason_provenance false st0 h0 sched n k hk
+  refine ⟨h1, h2, fun hc => ?_⟩
+  obtain ⟨i, _, _, _, _, _, hr⟩ := h2
+  exact ranHandler_kind false st0 h0 hc sched i n k hr
+
+/-- non-vacuity: `disconnect()` first with serial gates — reason and gate record are `[.api]`, with
+    explicit witnesses of the gate passage (task 0's step after `[0]`) and of the handler call (its
+    step after `[0, 0, 1, 0]`); mid-schedule (`[0, 0]`: marked, on the way to the handler) `calls`
+    is still empty; and in the racing schedule of `race_double_call` both reasons are on the gate
+    record -/
+example :
+    let st0 := mkSt [(.api, [0]), (.clientDisc, [0])] [0] []
+    gateSerial st0 [0, 0, 1, 0, 0, 0] = true
+    ∧ (run false st0 [0, 0, 1, 0, 0, 0]).sh.calls 0 = [.api]
+    ∧ (run false st0 [0, 0, 1, 0, 0, 0]).sh.marks 0 = [.api]
+    ∧ cnt (run false st0 [0, 0]) 0 2 = 1 ∧ (run false st0 [0, 0]).sh.calls 0 = []
+    ∧ (run false st0 [0, 0]).sh.marks 0 = [.api]
+    ∧ (run false st0 [0, 1, 0, 1, 0, 0, 1, 0, 1]).sh.calls 0 = [.clientDisc, .api]
+    ∧ (run false st0 [0, 1, 0, 1, 0, 0, 1, 0, 1]).sh.marks 0 = [.clientDisc, .api]
+    ∧ connAtStart st0 := by
+  refine ⟨by decide, by decide, by decide, by decide, by decide, by decide, by decide, by decide,
+    mkSt_connAtStart _ _ _⟩
+
+example :
+    let st0 := mkSt [(.api, [0]), (.clientDisc, [0])] [0] []
+    passedGate false st0 [0, 0, 1, 0, 0, 0] 0 0 .api
+    ∧ ranHandler false st0 [0, 0, 1, 0, 0, 0] 0 0 .api := by
+  intro st0
+  have hg : marksAt false (run false st0 [0]) 0 0 .api :=
+    ⟨⟨.api, [0], .mark⟩, by decide, rfl, rfl, by decide⟩
+  exact ⟨⟨[0], ⟨[1, 0, 0, 0], rfl⟩, hg⟩,
+    ⟨[0, 0, 1, 0], ⟨[0], rfl⟩, ⟨⟨.api, [0], .handler⟩, by decide, rfl, rfl, by decide⟩,
+      ⟨[0], ⟨[1, 0], rfl⟩, hg⟩⟩⟩
+
 /-- a refusing CONNECT (task 0: handler decides, check, mark, send, cleanup) and `disconnect()`
     (task 1) with serial gates, the refusal first: no handler call, one refusal; and the hypotheses
     of `serial_refused_never_notified_after` are met after the prefix `[0, 0, 0]` -/
